@@ -5,6 +5,7 @@ import (
 	"encoding/json"
 	"errors"
 	"fmt"
+	"math"
 
 	"github.com/SAP/go-dblib/tds"
 
@@ -314,7 +315,8 @@ func c15Run(cs c15Case, r *rt.Result) (sig, detail string) {
 			case "wu64", "wi64":
 				n = 8
 			}
-			data := m.payload(n)
+			orig := m.payload(n)
+			data := append([]byte(nil), orig...) // the caller's buffer
 			var err error
 			pi := rt.Catch(func() {
 				switch op.Op {
@@ -356,6 +358,12 @@ func c15Run(cs c15Case, r *rt.Result) (sig, detail string) {
 				s, d = "write-error/"+op.Op, fmt.Sprintf("%s of %d bytes returned %v", op.Op, n, err)
 				break
 			}
+			// the caller reuses its buffer after the call (io.Copy does):
+			// the queue must hold its own copy of what was written
+			for k := range data {
+				data[k] ^= 0xA5
+			}
+			data = orig
 			// model: fill the last packet completely, then open the next
 			// with the packet size in force
 			for len(data) > 0 {
@@ -556,6 +564,12 @@ func c15ReadSize(op string, rnd *rt.Rand, max int) int {
 	}
 	if max < 0 {
 		max = 0
+	}
+	if (op == "bytes" || op == "str") && rnd.Chance(1, 25) {
+		// a length no queue can hold (a 4-byte length field read from
+		// hostile input, an arithmetic slip in a caller)
+		huge := []int{math.MaxInt, math.MaxInt - 1, math.MaxInt - 7, math.MaxInt - 600, 1 << 62, 1 << 40, 1 << 32, 1<<31 - 1, 1 << 31}
+		return huge[rnd.Intn(len(huge))]
 	}
 	return rnd.Intn(max + 1)
 }
